@@ -29,6 +29,14 @@ FLAGS = list(itertools.product((True, False), (False, True), (False, True)))  # 
 VARIANTS = ("generic", "zeros", "loud_then_quiet", "outlier", "tiny", "strided", "reversed_view")
 
 
+def RTOL(bank):
+    """round-off margin.  Real (Hermitian) banks are summed over the half spectrum and doubled, so a
+    filter value at the Nyquist / DC bin counts twice instead of once; Fbank's square-rooted triangle
+    is 0 there only up to sqrt(rounding) ~ 3e-9 (found by the thorough tier at 16 kHz / 40 filters:
+    relative differences of 4e-9).  5e-8 covers that; anything a defect produces is >= 1e-5."""
+    return 5e-8 if bank.is_real else 1e-9
+
+
 FLOOR_VARIANTS = ("tiny+floor_1e-2", "zeros+floor_1e-9")
 FLOORS = {"tiny+floor_1e-2": 1e-2, "zeros+floor_1e-9": 1e-9}
 
@@ -131,7 +139,7 @@ def _eval(pt, seed):
                     nontriv += 1
                 # round-off of an FFT is relative to the LARGEST term of a frame: with a dynamic
                 # range of 1e8..1e12 inside one frame small coefficients carry ~1e-8 relative noise
-                tol = 1e-5 if variant in ("loud_then_quiet", "outlier") else 1e-9
+                tol = 1e-5 if variant.split("+")[0] in ("loud_then_quiet", "outlier") else RTOL(bank)
                 if use_log:
                     ok = np.all(np.abs(got - want) <= tol + tol * np.abs(want))
                 else:
@@ -188,7 +196,7 @@ def _replay(case, seed):
     got = r[1]
     if got.shape != want.shape:
         return core.result([core.violation(dict(tags, what="shape"), "%r vs %r" % (got.shape, want.shape), case)])
-    tol = 1e-5 if case["signal"] in ("loud_then_quiet", "outlier") else 1e-9
+    tol = 1e-5 if case["signal"].split("+")[0] in ("loud_then_quiet", "outlier") else RTOL(bank)
     if not np.all(np.abs(got - want) <= tol + tol * np.abs(want)):
         bad = np.argwhere(~(np.abs(got - want) <= tol + tol * np.abs(want)))
         return core.result([core.violation(
@@ -236,7 +244,7 @@ def _shared_bank(pt, seed):
             viol.append(core.violation(dict(tags, aspect="exception", exc=r[1]),
                                        "computer #%d of %r on a shared bank raised %s: %s" % (
                                            idx, seq, r[1], r[2]), case))
-        elif r[1].shape != want.shape or not np.all(np.abs(r[1] - want) <= 1e-9 + 1e-9 * np.abs(want)):
+        elif r[1].shape != want.shape or not np.all(np.abs(r[1] - want) <= RTOL(fresh_bank) + RTOL(fresh_bank) * np.abs(want)):
             viol.append(core.violation(
                 dict(tags, aspect="values"),
                 "computers built in sequence %r on ONE %s bank object: computer #%d differs from the "
